@@ -56,10 +56,11 @@ def success_reach(f, start=0, removed=()):
     return f.reachable(start, rem)
 
 
-def can_succeed_avoiding(f, removed, start=0):
-    """True if some Return is reachable from `start` on the success CFG without entering `removed`.
-    Returns (bool, witness path or None)."""
+def can_succeed_avoiding(f, removed, start=0, removed_edges=()):
+    """True if some Return is reachable from `start` on the success CFG without entering `removed`
+    (and without using `removed_edges`).  Returns (bool, witness path or None)."""
     rem = set(removed) | error_blocks(f)
+    removed_edges = set(removed_edges)
     if start in rem:
         return False, None
     succ = f.succ()
@@ -75,6 +76,8 @@ def can_succeed_avoiding(f, removed, start=0):
                 y = prev[y]
             return True, list(reversed(path))
         for y in succ[x]:
+            if (x, y) in removed_edges:
+                continue
             if y not in prev and y not in rem:
                 prev[y] = x
                 st.append(y)
@@ -455,10 +458,16 @@ class Slicer:
             pl = v["pl"]
             self.place_fields(pl, pv)
             self._local(f, pl["l"], pv, depth, seen, self.place_path(pl) + path, at)
+            for e in pl.get("p", []):
+                if isinstance(e, dict) and "i" in e:
+                    self._local(f, e["i"], pv, depth, seen, (), at)
         elif r == "discr":
             pl = v["pl"]
             self.place_fields(pl, pv)
             self._local(f, pl["l"], pv, depth, seen, self.place_path(pl), at)
+            for e in pl.get("p", []):
+                if isinstance(e, dict) and "i" in e:
+                    self._local(f, e["i"], pv, depth, seen, (), at)
             pv.ops.add("discr")
         elif r == "bin":
             pv.ops.add(v["op"])
@@ -506,6 +515,11 @@ class Slicer:
             summ = self.ret_summary(callee, depth + 1, path)
             self._merge_summary(pv, summ)
             ppaths = {pi: pp for (pi, pp) in summ.ppaths}
+            # by-value enum arguments select the callee's result by control flow: keep their identity
+            for ai in range(min(len(t["args"]), callee.argc)):
+                lt = callee.local_ty(ai + 1)
+                if lt.get("k") == "adt" and lt["adt"] in self.prog.adts and self.prog.adts[lt["adt"]]["is_enum"] and (ai + 1) not in summ.params:
+                    self._operand(f, t["args"][ai], pv, depth, seen, (), at)
             for pi in summ.params:
                 if pi - 1 < len(t["args"]):
                     pps = [pp for (q, pp) in summ.ppaths if q == pi]
@@ -583,7 +597,7 @@ class Atom:
         if self.kind == "call":
             return "error_if(%s%s(%s))" % ("" if self.truth else "!", self.callee.split("::", 1)[-1], "; ".join(_pvs(a) for a in self.args))
         if self.kind == "variant":
-            return "error_if(variant in %s of %s)" % (sorted(self.variants), _pvs(self.lhs))
+            return "error_if(variant %s of %s)" % (self.variants, _pvs(self.lhs))
         return "error_if(%s %s)" % (self.kind, self.truth)
 
 
